@@ -23,6 +23,7 @@ type c05Block struct {
 	h     int
 	start int64
 	n     int64
+	dup   bool // a repetition of pairs that another family counts: not added to distinct_nontrivial
 }
 
 func c05Blocks(c *mon.Config) []c05Block {
@@ -34,7 +35,7 @@ func c05Blocks(c *mon.Config) []c05Block {
 			if s+n > total {
 				n = total - s
 			}
-			out = append(out, c05Block{h, s, n})
+			out = append(out, c05Block{h: h, start: s, n: n})
 		}
 	}
 	full := 30
@@ -57,14 +58,31 @@ func init() {
 		Exhaustive:  func(tier string) bool { return true },
 		Flavours: func(tier string) []string {
 			if tier == "thorough" {
-				return []string{"release", "go126"}
+				return []string{"release", "release#orders", "go126", "386"}
 			}
-			return []string{"release"}
+			return []string{"release", "release#orders"}
 		},
 		Required: []string{"h=0", "h<=4/table-only", "h=5", "h=30", "index=0", "index=last", "index>=2^30"},
+		Merge: func(tier string, rs map[string]*mon.Result) []mon.Violation {
+			if r := rs["release#orders"]; r != nil && r.Complete && r.Buckets["order/descending"] == 0 && len(r.Violations) == 0 {
+				return []mon.Violation{{Sig: "c05/orders-process-observed-nothing", Flavour: "release#orders", Detail: []byte(`{}`), Count: 1, Inconclusive: true}}
+			}
+			return nil
+		},
 		Families: func(c *mon.Config) []mon.Family {
 			blocks := c05Blocks(c)
-			fams := []mon.Family{{Name: "all-indexes", N: len(blocks), Run: func(w *mon.W, idx int) { c05Run(w, blocks[idx]) }}}
+			var fams []mon.Family
+			if c.Variant() == "orders" {
+				// a fresh process whose FIRST queries arrive out of order (descending, strided, random):
+				// the complete enumeration alone only ever asks in ascending order
+				return []mon.Family{{Name: "non-ascending-orders", N: 1, Serial: true, Run: c05Orders}}
+			}
+			// the first thing the primary process does: all workers enumerate the SAME small heights at once
+			fams = append(fams, mon.Family{Name: "concurrent-first-use", N: 16 * 13, Run: func(w *mon.W, idx int) {
+				h := 12 - idx/16
+				c05Run(w, c05Block{h: h, start: 0, n: (int64(1) << uint(h+1)) - 1, dup: true})
+			}})
+			fams = append(fams, mon.Family{Name: "all-indexes", N: len(blocks), Run: func(w *mon.W, idx int) { c05Run(w, blocks[idx]) }})
 			return fams
 		},
 	})
@@ -123,7 +141,7 @@ func c05Run(w *mon.W, b c05Block) {
 	}
 	w.Eval(2 * b.n)
 	w.Extra("h_index_pairs_executed", b.n)
-	if h >= 5 {
+	if h >= 5 && !b.dup {
 		w.DistinctExact(b.n)
 	}
 	switch {
@@ -148,5 +166,77 @@ func c05Run(w *mon.W, b c05Block) {
 	}
 	w.Sample(func() interface{} {
 		return mon.D{"height": h, "indexes": fmt.Sprintf("[%d, %d)", b.start, b.start+b.n), "path_bits_after_block": fmt.Sprintf("%0*b", l, prefix)}
+	})
+}
+
+// c05Orders asks for the indexes of the heights 0..16 in descending, strided and random order, then
+// for sampled indexes of every larger height in random order, each answer checked with the walk
+// oracle. It is the only family of its process, so nothing has been asked in ascending order before.
+func c05Orders(w *mon.W, _ int) {
+	r := w.Rng
+	check := func(h int, index int64) bool {
+		w.Op, w.A, w.B = "IndexToPath(out of order)", int64(h), index
+		got := bmtree.IndexToPath(int32(h), int32(index))
+		l, prefix := c05NodeAt(h, index)
+		exp := bmPathWord(prefix, l, h)
+		full := int32((int64(1) << uint(h+1)) - 1)
+		if got != exp {
+			w.Fail("IndexToPath/out-of-order-query", mon.D{"height": h, "index": index, "got": fmt.Sprintf("%#016x", got), "expected": fmt.Sprintf("%#016x", exp)})
+			return false
+		}
+		if back := bmtree.PathToIndex(full, got); int64(back) != index {
+			w.Fail("PathToIndex(IndexToPath)", mon.D{"height": h, "index": index, "back": back})
+			return false
+		}
+		return true
+	}
+	var ev int64
+	for h := 16; h >= 0; h-- {
+		total := (int64(1) << uint(h+1)) - 1
+		switch h % 3 {
+		case 0: // descending
+			for i := total - 1; i >= 0; i-- {
+				if !check(h, i) {
+					return
+				}
+				ev++
+			}
+			w.Bucket("order/descending")
+		case 1: // a jump to the middle, then strides that wrap around
+			stride := int64(7919)
+			i := total / 2
+			for k := int64(0); k < total; k++ {
+				if !check(h, i) {
+					return
+				}
+				ev++
+				i = (i + stride) % total
+			}
+			w.Bucket("order/strided")
+		default: // random order
+			for k := int64(0); k < total; k++ {
+				if !check(h, int64(r.Uint64()%uint64(total))) {
+					return
+				}
+				ev++
+			}
+			w.Bucket("order/random")
+		}
+		w.Tick()
+	}
+	for h := 17; h <= 30; h++ {
+		total := (int64(1) << uint(h+1)) - 1
+		for k := 0; k < 20000; k++ {
+			if !check(h, int64(r.Uint64()%uint64(total))) {
+				return
+			}
+			ev++
+		}
+		w.Tick()
+	}
+	w.Eval(2 * ev)
+	w.DistinctExact(ev)
+	w.Sample(func() interface{} {
+		return mon.D{"what": "heights 16..0 asked descending / strided / random first in a fresh process", "queries": ev}
 	})
 }
